@@ -30,6 +30,49 @@ def H(name, **kw):
 
 PROPS = {}
 
+# ---------------------------------------------------------------------------- Cli-level steps
+CLI_BOUNDS = "one key from ANY CliInv state: command buffer N=3, history buffer H=3 (all contents/cursors), prompt in {'', '$ ', 'e-acute> '}"
+CLI_ASSUME = [
+    "CliInv = editor_inv + history_inv (entries were editor lines, each <= N bytes) + prompt from a fixed set of three; every such state is reachable through the public API",
+    "keys enter through the cfg-guarded per-key entries (__verif_on_control / __verif_on_text = body of process_byte behind the decoder); the glue harness c01 glue_* ties them to process_byte",
+    "handler = a recording closure; handlers that re-enter the Cli are outside the claim",
+    "lines the tokenizer statement leaves open (backslash + other byte inside quotes) and `help` followed by an option are assumed away",
+]
+
+
+def cli_keys(mod_prefix, names, **kw):
+    out = []
+    for n in names:
+        d = dict(kw)
+        if "char" in n:
+            # typed text: the library's debug_assert on chars().count() is compiled out for these
+            d["nodebug"] = True
+        out.append(H("%s::%s" % (mod_prefix, n), bounds=CLI_BOUNDS, **d))
+    return out
+
+
+def enter_set(prefix, tags, n=3, **kw):
+    """Enter-class harnesses.  The handler-side oracle runs with a zero-sized history
+    buffer (cfg vp_h0), one instance per line length (a constant length lets the
+    loops over the line fold); the history side of Enter is decided separately from
+    an arbitrary history state (key_enter_history_v*).  Together with C10's push step
+    this covers Enter from any CliInv state; each half alone fits into memory."""
+    out = []
+    for v in range(0, n + 1):
+        out.append(H("%s_v%d" % (prefix, v), tags=tags, cfg=["vp_h0"], bounds="Enter from ANY editor state with a line of exactly %d bytes (N=3), history buffer of size 0, three prompts; handler view compared on call count and command name" % v, timeout=2400, mem=10, **kw))
+        out.append(H("%s_v%d" % (prefix, v), tags=tags, cfg=["vp_h0"], features=["history", "autocomplete"], bounds="same, build without `help`: handler view compared item by item", timeout=2400, mem=10, **kw))
+    # history side of Enter: N=3 with a 2-byte history buffer (empty, or one 1-byte entry:
+    # recorded / duplicate / evicted / too long); larger history states are C10's push step
+    for v in (1, 2):
+        out.append(H("cli_steps::key_enter_history_v%d" % v, tags=tags, cfg=["vp_h2"], bounds="Enter from ANY CliInv state (N=3, H=2) with a line of exactly %d bytes: history side" % v, timeout=2400, mem=10, **kw))
+    return out
+
+
+def routing_set(tags, lens=range(0, 7), **kw):
+    return [H("cli_steps::process_input_routing_n%d" % n, tags=tags, bounds="every well-formed token buffer of exactly %d bytes handed to process_input (all of: dispatch count, handler's view of name and items, help routing, output flushed)" % n, timeout=2400, mem=8, **kw) for n in lens]
+
+
+
 PROPS["C02"] = {
     "claim": "Utf8Accum::push_byte / InputGenerator::accept hand out only single well-formed scalars: inductive step over the whole accumulator state space x all 256 bytes (no bound), plus all 4-byte sequences from default()",
     "assumptions": [
@@ -93,11 +136,11 @@ PROPS["C07"] = {
         "lines longer than the bound are outside the claim (the scanner is a single-pass finite automaton, which is an argument, not a solver result)",
     ],
     "harnesses": [
-        H("c07_tokens::c07_tokens_vs_model", tier="quick", bounds="every line of <= 6 bytes, all byte values but NUL", timeout=900, mem=4),
-        H("c07_tokens::c07_raw_command_split", tier="quick", bounds="every line of <= 6 bytes whose later tokens do not start with '-'", timeout=900, mem=4),
+    ] + [H("c07_tokens::c07_%s_n%d" % (k, n), bounds="every line of exactly %d bytes, all byte values but NUL%s" % (n, x), timeout=1500, mem=4)
+         for n in range(0, 7) for (k, x) in [("tokens_vs_model", ""), ("raw_command_split", " (later tokens not starting with '-')")]] + [
         H("c07_tokens::c07_round_trip", bounds="every list of <= 3 strings of <= 2 bytes (any byte but NUL)", timeout=1500, mem=6),
-        H("c07_tokens::c07_tokens_vs_model", tier="thorough", cfg=["vp_thorough"], bounds="every line of <= 8 bytes", timeout=3400, mem=10),
-        H("c07_tokens::c07_raw_command_split", tier="thorough", cfg=["vp_thorough"], bounds="every line of <= 8 bytes whose later tokens do not start with '-'", timeout=3400, mem=10),
+    ] + [H("c07_tokens::c07_%s_n%d" % (k, n), tier="thorough", cfg=["vp_thorough"], bounds="every line of exactly %d bytes" % n, timeout=3400, mem=10)
+         for n in (7, 8) for k in ("tokens_vs_model", "raw_command_split")] + [
         H("c07_tokens::c07_tokens_twin", kind="twin"),
     ],
 }
@@ -106,8 +149,9 @@ PROPS["C08"] = {
     "claim": "ArgsIter over every NUL-separated token buffer of <= 6 (quick) / <= 8 (thorough) well-formed UTF-8 bytes (all encoded lengths, empty tokens, empty list) yields exactly the reference classification, item by item, with string payloads compared by position (offset,length) in the buffer - which implies the re-join law",
     "assumptions": ["token buffers longer than the bound are outside the claim"],
     "harnesses": [
-        H("c08_args::c08_classify_vs_model", tier="quick", bounds="every well-formed token buffer of <= 6 bytes", timeout=900, mem=4),
-        H("c08_args::c08_classify_vs_model", tier="thorough", cfg=["vp_thorough"], bounds="every well-formed token buffer of <= 8 bytes", timeout=3400, mem=10),
+    ] + [H("c08_args::c08_classify_n%d" % n, bounds="every well-formed token buffer of exactly %d bytes" % n, timeout=1500, mem=4) for n in range(0, 7)] + [
+        H("c08_args::c08_classify_n7", tier="thorough", cfg=["vp_thorough"], bounds="token buffer of exactly 7 bytes", timeout=3400, mem=10),
+        H("c08_args::c08_classify_n8", tier="thorough", cfg=["vp_thorough"], bounds="token buffer of exactly 8 bytes", timeout=3400, mem=10),
         H("c08_args::c08_classify_twin", kind="twin"),
         H("c17_scalars::c17_pop_front", bounds="char_pop_front on every ordered pair of scalar values", exhaustive=True),
     ],
@@ -176,6 +220,9 @@ PROPS["C11"] = {
         H("c11_complete::c11_merge_tight", bounds="free space 0..=4, <=3 distinct candidates of <=3 bytes, at least one longer than the free space", timeout=900, mem=4),
         H("c11_complete::c11_editor_autocompletion", tier="quick", bounds="n<=6, any editor state, <=2 candidates of <=3 bytes", timeout=1500, mem=8),
         H("c11_complete::c11_editor_autocompletion", tier="thorough", cfg=["vp_thorough"], bounds="n<=8", timeout=3400, mem=12),
+        H("c11_derived::c11_derived_set_a", bounds="derived autocomplete for names {get, set, get-led, go}: every word <= 3 bytes, free space 0..=6", timeout=1500, mem=6),
+        H("c11_derived::c11_derived_set_b", bounds="derived autocomplete for names {led, zhuk (Cyrillic), ledger, zhar (Cyrillic)}: every word <= 3 bytes, free space 0..=6", timeout=1500, mem=6),
+        H("c11_derived::c11_derived_group", bounds="derived autocomplete of a command group (two visible members, a hidden member, a catch-all): every word <= 3 bytes, free space 0..=6", timeout=1800, mem=8),
         H("c11_complete::c11_merge_twin", kind="twin"),
     ],
 }
@@ -184,8 +231,13 @@ PROPS["C12"] = {
     "claim": "HelpRequest::from_command on every argument token buffer of <= 6 (quick) / 8 (thorough) well-formed bytes, for the name `help` and for another name: All iff `help` alone; Command(first value, rest) iff `help` + value; for other names Some iff an option before any `--` is --help or a cluster containing h",
     "assumptions": ["`help` followed directly by an option or `--` is left open by the statement"],
     "harnesses": [
-        H("c12_help::c12_request_predicate", tier="quick", bounds="token buffer <= 6 bytes, name in {help, led}", timeout=1500, mem=6),
-        H("c12_help::c12_request_predicate", tier="thorough", cfg=["vp_thorough"], bounds="token buffer <= 8 bytes", timeout=3400, mem=12),
+    ] + [H("c12_help::c12_request_predicate_n%d" % n, bounds="every well-formed token buffer of exactly %d bytes, name in {help, led}" % n, timeout=1800, mem=5) for n in range(0, 7)] + [
+        H("c12_help::c12_request_predicate_n7", tier="thorough", cfg=["vp_thorough"], bounds="token buffer of exactly 7 bytes", timeout=3400, mem=10),
+        H("c12_help::c12_request_predicate_n8", tier="thorough", cfg=["vp_thorough"], bounds="token buffer of exactly 8 bytes", timeout=3400, mem=12),
+    ] + routing_set(["C12"]) + [
+    ] + [H("c12_content::" + n, bounds="help text for %s compared byte by byte with the documented format" % n, timeout=900, mem=4) for n in [
+        "help_all", "help_led", "led_dash_h", "led_long_help", "led_cluster_h", "help_go", "help_sub", "help_sub_ping", "sub_ping_dash_h",
+        "help_unknown", "help_unknown_sub", "group_help_all", "group_help_second_member", "group_help_first_member", "group_help_hidden", "group_hidden_dash_h"]] + [
         H("c12_help::c12_request_twin", kind="twin"),
     ],
 }
@@ -203,48 +255,10 @@ PROPS["C13"] = {
         H("c13_output::c13_step_fmt_write", bounds="any writer state, core::fmt::Write::write_str, text <= 3 bytes", timeout=900, mem=6),
         H("c13_output::c13_step_uwrite", bounds="any writer state, ufmt::uWrite::write_str, text <= 3 bytes", timeout=900, mem=6),
         H("c13_output::c13_writer_base", bounds="Writer::new()"),
-        H("c13_output::c13_writer_two_calls", bounds="2 calls of write_str/writeln_str x text <= 2 bytes from new()", timeout=900, mem=6),
+        H("c13_output::c13_writer_two_calls", bounds="2 calls of write_str/writeln_str x text <= 1 byte over {x, CR, LF} from new()", timeout=900, mem=6),
         H("c13_output::c13_writer_twin", kind="twin"),
     ],
 }
-
-
-# ---------------------------------------------------------------------------- Cli-level steps
-CLI_BOUNDS = "one key from ANY CliInv state: command buffer N=3, history buffer H=3 (all contents/cursors), prompt in {'', '$ ', 'e-acute> '}"
-CLI_ASSUME = [
-    "CliInv = editor_inv + history_inv (entries were editor lines, each <= N bytes) + prompt from a fixed set of three; every such state is reachable through the public API",
-    "keys enter through the cfg-guarded per-key entries (__verif_on_control / __verif_on_text = body of process_byte behind the decoder); the glue harness c01 glue_* ties them to process_byte",
-    "handler = a recording closure; handlers that re-enter the Cli are outside the claim",
-    "lines the tokenizer statement leaves open (backslash + other byte inside quotes) and `help` followed by an option are assumed away",
-]
-
-
-def cli_keys(mod_prefix, names, **kw):
-    out = []
-    for n in names:
-        d = dict(kw)
-        if "char" in n:
-            # typed text: the library's debug_assert on chars().count() is compiled out for these
-            d["nodebug"] = True
-        out.append(H("%s::%s" % (mod_prefix, n), bounds=CLI_BOUNDS, **d))
-    return out
-
-
-def enter_set(prefix, tags, n=3, **kw):
-    """Enter-class harnesses.  The handler-side oracle runs with a zero-sized history
-    buffer (cfg vp_h0), one instance per line length (a constant length lets the
-    loops over the line fold); the history side of Enter is decided separately from
-    an arbitrary history state (key_enter_history_v*).  Together with C10's push step
-    this covers Enter from any CliInv state; each half alone fits into memory."""
-    out = []
-    for v in range(0, n + 1):
-        out.append(H("%s_v%d" % (prefix, v), tags=tags, cfg=["vp_h0"], bounds="Enter from ANY editor state with a line of exactly %d bytes (N=3), history buffer of size 0, three prompts; handler view compared on call count and command name" % v, timeout=2400, mem=10, **kw))
-        out.append(H("%s_v%d" % (prefix, v), tags=tags, cfg=["vp_h0"], features=["history", "autocomplete"], bounds="same, build without `help`: handler view compared item by item", timeout=2400, mem=10, **kw))
-    # history side of Enter: N=3 with a 2-byte history buffer (empty, or one 1-byte entry:
-    # recorded / duplicate / evicted / too long); larger history states are C10's push step
-    for v in (1, 2):
-        out.append(H("cli_steps::key_enter_history_v%d" % v, tags=tags, cfg=["vp_h2"], bounds="Enter from ANY CliInv state (N=3, H=2) with a line of exactly %d bytes: history side" % v, timeout=2400, mem=10, **kw))
-    return out
 
 
 CHEAP = ["key_backspace", "key_forward", "key_back", "key_up", "key_down", "key_char1", "key_char2", "key_char3", "key_char4", "key_tab"]
@@ -254,7 +268,7 @@ PROPS["C01"] = {
     "assumptions": CLI_ASSUME,
     "harnesses": cli_keys("cli_steps", CHEAP, tags=["C01"], timeout=900, mem=4) + [
     ] + enter_set("cli_steps::key_enter", ["C01"]) + [
-        H("cli_steps::process_input_routing", tags=["C01", "C12"], bounds="every token buffer of <= 6 well-formed bytes handed to process_input", timeout=2400, mem=14),
+    ] + routing_set(["C01", "C12"]) + [
         H("cli_steps::api_build", tags=["C01"], bounds="CliBuilder::build() with each of the three prompts"),
         H("cli_glue::glue_ascii", tags=["C01"], features=[], cfg=["vp_h0"], nodebug=True, bounds="process_byte(b) vs accept(b) + per-key entry: ANY editor state (N=3), ANY decoder state, every byte < 0x80; optional features off (process_byte has no cfg gate - checked textually)", timeout=2400, mem=12),
         H("cli_steps::key_enter_twin", kind="twin", cfg=["vp_h0"], mem=10),
@@ -268,7 +282,7 @@ PROPS["C15"] = {
     ] + [h for h in enter_set("cli_steps::key_enter", ["C15"]) if "features" not in h] + [
         H("cli_steps::api_write_set_prompt", tags=["C15", "C13"], bounds="Cli::set_prompt / Cli::write(write_str|writeln_str of <= 2 bytes over {x, LF}) from ANY CliInv state", timeout=900, mem=4),
         H("cli_steps::api_build", tags=["C15"], bounds="CliBuilder::build() with each of the three prompts"),
-        H("cli_steps::process_input_routing", tags=["C15"], bounds="every token buffer of <= 6 well-formed bytes handed to process_input (help and error output included)", timeout=2400, mem=14),
+    ] + routing_set(["C15"], lens=(4, 6)) + [
         H("cli_steps::key_enter_twin", kind="twin", cfg=["vp_h0"], mem=10),
     ],
 }
@@ -280,7 +294,7 @@ PROPS["C09"] = {
         "assumed away (statement silent): an option name directly followed by another option, by `--` or by the end of the line; a value-taking option given twice",
         "f32/f64 and the wider integer types are outside the claim",
     ],
-    "harnesses": [H("c09_derive::n%d::%s" % (n, v), tier=("both" if n <= 5 else "thorough"), cfg=(["vp_thorough"] if n == 6 else []), bounds="%s, every well-formed token buffer of exactly %d bytes" % (d, n), timeout=2400, mem=8)
+    "harnesses": [H("c09_derive::n%d::%s" % (n, v), tier=("both" if (n == 5 or (v == "p1_exit" and n <= 5)) else "thorough"), cfg=(["vp_thorough"] if n == 6 else []), bounds="%s, every well-formed token buffer of exactly %d bytes" % (d, n), timeout=3000, mem=5.5)
                   for n in range(0, 7)
                   for (v, d) in [("p1_exit", "unit variant"),
                                  ("p1_led", "positional u8 + Option<u8> option (-l/--lv) + flag (-v/--verbose)"),
@@ -340,7 +354,8 @@ def _c16():
                 if "char" in k:
                     d["nodebug"] = True
                 hs.append(H("cli_steps::" + k, **d))
-            hs.append(H("cli_steps::process_input_routing", features=feats, tags=["C16", "C01", "C12", "C15"], bounds="features {%s}: every token buffer of <= 6 bytes handed to process_input" % label, timeout=2400, mem=14))
+            for n_ in (4, 6):
+                hs.append(H("cli_steps::process_input_routing_n%d" % n_, features=feats, tags=["C16", "C01", "C12", "C15"], bounds="features {%s}: every token buffer of exactly %d bytes handed to process_input" % (label, n_), timeout=2400, mem=8))
             if len(feats) in (0, 3) or feats == ["help"]:
                 hs.append(H("cli_steps::key_enter_v2", features=feats, cfg=["vp_h0"], tags=["C16", "C01", "C15"], bounds="features {%s}: Enter, line of 2 bytes, N=3, history buffer of size 0" % label, timeout=2400, mem=10))
     hs.append(H("cli_steps::key_enter_twin", kind="twin", cfg=["vp_h0"], mem=10))
